@@ -1,6 +1,7 @@
 package world
 
 import (
+	"sort"
 	"strings"
 
 	metav1 "k8s.io/apimachinery/pkg/apis/meta/v1"
@@ -78,6 +79,8 @@ type ParentRef struct {
 type Match struct {
 	Type  string `json:"type,omitempty"` // Exact, PathPrefix, "" (nil => default PathPrefix)
 	Value string `json:"value,omitempty"`
+	// Headers: exact header conditions (name -> value) of the match
+	Headers map[string]string `json:"headers,omitempty"`
 }
 
 // BackRef of a rule.
@@ -244,6 +247,15 @@ func gatewayToK8s(o *Obj) client.Object {
 					v = "/"
 				}
 				hm.Path.Value = &v
+				hnames := make([]string, 0, len(m.Headers))
+				for name := range m.Headers {
+					hnames = append(hnames, name)
+				}
+				sort.Strings(hnames)
+				for _, name := range hnames {
+					ht := gatewayv1.HeaderMatchExact
+					hm.Headers = append(hm.Headers, gatewayv1.HTTPHeaderMatch{Type: &ht, Name: gatewayv1.HTTPHeaderName(name), Value: m.Headers[name]})
+				}
 				rule.Matches = append(rule.Matches, hm)
 			}
 			for _, b := range backendRefs(r.Backends) {
